@@ -135,7 +135,7 @@ def _unquote_print(line, prefix):
     return json.loads(json.loads(body))
 
 
-def judge(records, check=None, name="SeqLangTrace", batch=None, timeout=900, module="SeqLangTrace"):
+def judge(records, check=None, name="SeqLangTrace", batch=None, timeout=900, module="SeqLangTrace", cwd=None):
     """records: [{"id", "ast", "outcome"}] -> (mismatches, skipped, stats)
 
     mismatches: [{"id", "exp": [admissible outcomes], "obs": outcome}] as decided by TLC;
@@ -151,7 +151,8 @@ def judge(records, check=None, name="SeqLangTrace", batch=None, timeout=900, mod
             for r in part:
                 f.write(json.dumps({"id": r["id"], "ast": r["ast"], "outcome": r["outcome"]}) + "\n")
         res = common.tlc(module, "SeqLangTrace.cfg", env={"SEQ_TRACE": path}, workers=8, timeout=timeout,
-                         metadir=os.path.join(common.WORK, "tlc_%s_%d_%d" % (name, os.getpid(), b0)))
+                         metadir=os.path.join(common.WORK, "tlc_%s_%d_%d" % (name, os.getpid(), b0)),
+                         cwd=cwd or common.SPEC)
         if check is not None:
             check.add_tlc(name, res)
         stats["tlc_wall_s"] += res.wall
@@ -183,3 +184,326 @@ def build_records(programs, real):
             continue
         records.append({"id": p["id"], "ast": p["ast"], "outcome": o})
     return records, rejected, unmodelled
+
+
+# ---------------------------------------------------------------------------
+# program sources
+# ---------------------------------------------------------------------------
+import collections
+import glob
+
+import seqgen
+from seqgen import generate_programs  # noqa: F401  (part of the interface)
+
+
+def _rust_strings(text):
+    out = []
+    for m in re.finditer(r'evaluate\(\s*(?:&\w+\(\s*)?(r#"(.*?)"#|"((?:[^"\\]|\\.)*)")', text, re.S):
+        if m.group(2) is not None:
+            out.append(m.group(2))
+        else:
+            s = re.sub(r'\\\n\s*', '', m.group(3))
+            try:
+                out.append(json.loads('"' + s.replace("\n", "\\n") + '"'))
+            except ValueError:
+                continue
+    return out
+
+
+def _toplevel_tail(node):
+    if isinstance(node, list):
+        return any(_toplevel_tail(x) for x in node)
+    if not isinstance(node, dict):
+        return False
+    if node.get("t") == "fn":
+        return False
+    if node.get("t") == "access" and node["src"]["k"] in ("tail", "tailripple"):
+        return True
+    return any(_toplevel_tail(v) for v in node.values())
+
+
+def corpus_programs():
+    """the in-core part of the test-suite sources and of the docs/spec.md examples, parsed by the REAL
+    parser (astdump).  Returns (programs, why_not: Counter of reasons for leaving a source out)."""
+    srcs = []
+    for fn in sorted(glob.glob("/repo/quiver-tests/tests/*.rs")):
+        for s in _rust_strings(open(fn).read()):
+            srcs.append((os.path.basename(fn), s))
+    md = open("/repo/docs/spec.md").read()
+    for m in re.finditer(r"```quiver\n(.*?)```", md, re.S):
+        block = m.group(1)
+        srcs.append(("spec.md", block))
+        for line in block.splitlines():
+            line = re.sub(r"\s*//.*$", "", line).strip()
+            if line:
+                srcs.append(("spec.md:line", line))
+    seen, progs = set(), []
+    for f, s in srcs:
+        if s in seen:
+            continue
+        seen.add(s)
+        progs.append({"id": "c%d" % len(progs), "src": s, "from": f, "tags": ["corpus"], "known": None})
+    asts = astdump(progs)
+    out, why = [], collections.Counter()
+    for p in progs:
+        a = asts.get(p["id"], {})
+        if "ast" not in a:
+            why[a.get("skip") or "parse error"] += 1
+            continue
+        if not a["ast"]["steps"]:
+            why["no value-producing statement"] += 1
+            continue
+        if _toplevel_tail(a["ast"]["steps"]):
+            why["tail call outside a function"] += 1       # (loops for ~30 s: known finding of C07)
+            continue
+        p["ast"] = a["ast"]
+        p["known"] = seqgen.known_pattern(p["ast"])
+        out.append(p)
+    return out, why
+
+
+def _same_ast(gen, parsed):
+    want = json.loads(json.dumps(gen))
+    want.pop("sep", None)
+
+    def strip(d, _):
+        d.pop("sugar", None)
+    seqast.walk(want, strip)
+    return want == parsed
+
+
+def adopt_parser_ast(programs, stats=None):
+    """Replace the generator's abstract syntax by what the REAL parser makes of the rendered text, so
+    that the record handed to TLC is by construction the syntax of the very text that was run (a
+    renderer slip can then change WHAT is tested, never produce a false verdict).  Programs the parser
+    refuses or that fall outside the core are dropped.  Counts how often the two differ (the parser
+    has canonical choices, e.g. `=A['int]` is a tuple pattern with a type field, `([] | Ok)` a type)."""
+    parsed = astdump([{"id": p["id"], "src": p["src"]} for p in programs])
+    keep = []
+    for p in programs:
+        a = parsed.get(p["id"], {})
+        if "ast" not in a or not a["ast"]["steps"]:
+            if stats is not None:
+                stats["unparsed"] += 1
+            continue
+        if stats is not None and not _same_ast(p["ast"], a["ast"]):
+            stats["parser_ast_differs"] += 1
+        p["gen_ast"], p["ast"] = p["ast"], a["ast"]
+        p["known"] = seqgen.known_pattern(p["ast"])
+        keep.append(p)
+    return keep
+
+
+# ---------------------------------------------------------------------------
+# attribution of a disagreement to a known finding
+# ---------------------------------------------------------------------------
+def classify(mismatches, byid):
+    """{mismatch id: key of the known finding that explains it, or None}.
+
+    pin-and-rebind-same-name / tail-call-inside-tuple-field: the syntactic trigger is in the program and
+    the observation has the shape the defect produces.  bound-variable-loses-nil: the disagreement
+    disappears when the program is rewritten into the equivalent form that the compiler's unsound
+    narrowing does not apply to (seqgen.wrap_binders) - decided by re-running the REAL implementation.
+    inherit-spread-union-drops-name: the observation is what the SPECIFICATION computes when some of the
+    name-inheriting spreads lose their name (seqgen.inherit_variants) - decided by TLC.
+    spread-tuple-fields-get-no-flowing-value: likewise for the program in which the fields of tuple
+    literals containing a spread receive nil / are not applied (seqgen.noinput_variant)."""
+    keys = {}
+    pending = []
+    for m in mismatches:
+        p = byid[m["id"]]
+        obs = m["obs"]
+        k = seqgen.known_pattern(p["ast"])
+        if k == "pin-and-rebind-same-name" and obs == {"t": "error", "e": "VariableUndefined"}:
+            keys[m["id"]] = k
+        elif k == "tail-call-inside-tuple-field" and obs.get("t") == "value":
+            keys[m["id"]] = k
+        elif k == "star-on-union-then-failing-branch" and obs == {"t": "error", "e": "VariableUndefined"}:
+            keys[m["id"]] = k
+        elif k in ("locals-shift-after-failed-branch-that-binds", "captured-member-access-ignores-shadowing"):
+            keys[m["id"]] = k
+        else:
+            keys[m["id"]] = None
+            pending.append(m)
+    if not pending:
+        return keys
+    # (b) the equivalent rewriting, run by the real implementation
+    wrapped = {}
+    for m in pending:
+        w, changed = seqgen.wrap_binders(byid[m["id"]]["ast"])
+        if changed:
+            wrapped[m["id"]] = w
+    real = run_real([{"id": i, "src": seqast.render(w)} for i, w in wrapped.items()]) if wrapped else {}
+    variants = []
+    for m in pending:
+        i = m["id"]
+        cands = [(byid[i]["ast"], m["obs"])]
+        if i in wrapped:
+            o = norm_outcome(real[i])
+            if not isinstance(o, tuple):
+                if o in m["exp"]:
+                    keys[i] = "bound-variable-loses-nil"
+                    continue
+                cands.append((wrapped[i], o))
+        for ci, (prog, ob) in enumerate(cands):
+            ni = seqgen.noinput_variant(prog)
+            for bi, base in enumerate([prog] + ([ni] if ni is not None else [])):
+                vs = ([base] if bi == 1 else []) + seqgen.inherit_variants(base)
+                for vi, v in enumerate(vs):
+                    variants.append({"id": "%s|%d|%d|%d" % (i, ci, bi, vi), "ast": v, "outcome": ob})
+    if variants:
+        mm, sk, _ = judge(variants, name="SeqLangTrace_classify")
+        unexplained = {x["id"] for x in mm} | set(sk)
+        for v in variants:
+            if v["id"] not in unexplained:
+                i, _, bi, _ = v["id"].rsplit("|", 3)
+                if keys.get(i) is None or bi == "0":
+                    keys[i] = ("spread-tuple-fields-get-no-flowing-value" if bi == "1"
+                               else "inherit-spread-union-drops-name")
+    return keys
+
+
+# ---------------------------------------------------------------------------
+# the check
+# ---------------------------------------------------------------------------
+def check_programs(check, programs, label, stats):
+    """run, judge and report one group of programs; returns the list of unexplained mismatches"""
+    if label != "corpus":
+        for p in programs:
+            p["src"] = seqast.render(p["ast"])
+        g0 = stats["groups"].setdefault(label, collections.Counter())
+        n0 = len(programs)
+        programs = adopt_parser_ast(programs, g0)
+        g0["proposed"] += n0 - len(programs)
+    t0 = time.time()
+    real = run_real(programs)
+    stats["run_s"] += time.time() - t0
+    records, rejected, unmodelled = build_records(programs, real)
+    byid = {p["id"]: p for p in programs}
+    g = stats["groups"].setdefault(label, collections.Counter())
+    g["proposed"] += len(programs)
+    g["rejected_by_compiler"] += len(rejected)
+    g["outside_modelled_range"] += len(unmodelled)
+    for i, msg in rejected.items():
+        stats["reject_reasons"][re.sub(r'"[^"]*"', '"..."', re.sub(r"\d+:\d+", "L:C", msg))[:80]] += 1
+    mismatches, skipped, js = judge(records, check=check, name="SeqLangTrace")
+    stats["tlc_s"] += js["tlc_wall_s"]
+    g["judged"] += len(records) - len(skipped)
+    g["not_judged_spec_undefined"] += sum(1 for w in skipped.values() if w == "undefined")
+    g["not_judged_fuel"] += sum(1 for w in skipped.values() if w == "diverges")
+    for r in records:
+        if r["id"] in skipped:
+            continue
+        p = byid[r["id"]]
+        o = r["outcome"]
+        stats["outcomes"][o["t"] + (":nil" if o["t"] == "value" and o["v"].get("k") == "nil" else "")] += 1
+        fs = seqast.features(p["ast"])
+        for f in fs:
+            stats["features"][f] += 1
+        for t in p.get("tags", []):
+            stats["tags"][t] += 1
+        if len(fs & seqast.LISTED) >= 2:
+            stats["nontrivial"].add(p["src"])
+        stats["distinct"].add(p["src"])
+        if len(check.cov["samples"]) < 6 and label == "generated" and 12 <= len(p["src"]) <= 160:
+            check.sample({"source": p["src"], "outcome": o})
+    keys = classify(mismatches, byid) if mismatches else {}
+    bad = []
+    for m in mismatches:
+        p = byid[m["id"]]
+        key = keys.get(m["id"])
+        replay = {"property": check.prop, "id": p["id"], "source": p["src"], "ast": p["ast"],
+                  "observed": m["obs"], "expected": m["exp"], "tags": p.get("tags", []), "group": label}
+        what = "program `%s`: observed %s, specified %s" % (
+            p["src"].replace("\n", " <nl> ")[:300], json.dumps(m["obs"])[:200], json.dumps(m["exp"])[:200])
+        if key is not None:
+            stats["known"][key] += 1
+        if check.violation(replay, name=label, key=key, what=what):
+            bad.append(m)
+    return bad
+
+
+def run(prop, tier):
+    if prop != "C02":
+        raise common.ToolError("engines/seqlang.py decides C02 (other properties reuse its parts)")
+    check = common.Check(prop, tier, level="conformance")
+    check.cov["rule"] = RULE
+    seed = common.seed()
+    thorough = tier == "thorough"
+    n = int(os.environ.get("SEQ_N", "50000" if thorough else "2400"))
+    stats = {"run_s": 0.0, "tlc_s": 0.0, "groups": {}, "reject_reasons": collections.Counter(),
+             "outcomes": collections.Counter(), "features": collections.Counter(), "tags": collections.Counter(),
+             "nontrivial": set(), "distinct": set(), "known": collections.Counter()}
+    t0 = time.time()
+    # (c) corpus: the specification judges source text it has never seen, through the real parser
+    corpus, why = corpus_programs()
+    check_programs(check, corpus, "corpus", stats)
+    # (b) exhaustive tiny scope
+    tiny = seqgen.tiny_programs(6 if thorough else 5) + seqgen.tiny_programs(7 if thorough else 6, focus=True)
+    for i in range(0, len(tiny), 40000):
+        check_programs(check, tiny[i:i + 40000], "tiny_exhaustive", stats)
+    # (a) seeded generator
+    chunk = 10000
+    done = 0
+    while done < n:
+        k = min(chunk, n - done)
+        progs = seqgen.generate_programs(seed * 1000003 + done, k)
+        check_programs(check, progs, "generated", stats)
+        done += k
+    judged = sum(g["judged"] for g in stats["groups"].values())
+    proposed = sum(g["proposed"] for g in stats["groups"].values())
+    rejected = sum(g["rejected_by_compiler"] for g in stats["groups"].values())
+    cov = check.cov
+    cov["traces_validated_against_impl"] = judged
+    cov["evaluations"] = judged
+    cov["distinct_nontrivial"] = len(stats["nontrivial"])
+    cov["distinct_programs"] = len(stats["distinct"])
+    cov["groups"] = {k: dict(v) for k, v in stats["groups"].items()}
+    cov["rejected_by_compiler"] = rejected
+    gen = stats["groups"].get("generated", {})
+    cov["generator_acceptance_rate"] = round(1 - gen.get("rejected_by_compiler", 0) / max(1, gen.get("proposed", 1)), 4)
+    cov["reject_reasons"] = dict(stats["reject_reasons"].most_common(12))
+    cov["features"] = dict(stats["features"].most_common())
+    cov["generator_tags"] = dict(stats["tags"].most_common())
+    cov["outcomes"] = dict(stats["outcomes"])
+    cov["corpus_left_out"] = dict(why)
+    cov["known_finding_hits"] = dict(stats["known"])
+    cov["timing"] = {"real_runs_s": round(stats["run_s"], 1), "tlc_s": round(stats["tlc_s"], 1),
+                     "records_per_tlc_second": round(judged / max(0.1, stats["tlc_s"]), 1)}
+    check.assumptions += [
+        "programs on which SeqLang.tla is undefined (unbound name after a failed match, equality on functions, "
+        "integers beyond 1e8, ill-typed builtin arguments) or exceeds its call-depth fuel are not judged",
+        "function values are compared as opaque values",
+        "the compiler's acceptance is not judged here (C01); rejected programs are skipped and counted"]
+    print("C02: %d programs proposed, %d rejected by the compiler, %d judged by TLC in %.0fs (TLC %.0fs); "
+          "%d distinct with >= 2 listed features; known-finding hits %s"
+          % (proposed, rejected, judged, time.time() - t0, stats["tlc_s"], len(stats["nontrivial"]),
+             dict(stats["known"])))
+    return check.finish()
+
+
+def replay(prop, path):
+    """re-run one recorded disagreement: real compiler + VM, then TLC"""
+    obj = json.load(open(path))
+    p = {"id": obj.get("id", "replay"), "ast": obj["ast"], "src": obj.get("source") or seqast.render(obj["ast"]),
+         "tags": obj.get("tags", [])}
+    real = run_real([p])
+    records, rejected, unmodelled = build_records([p], real)
+    print("source:   %s" % p["src"])
+    if not records:
+        print("not judged: %s" % (rejected or unmodelled))
+        return 0
+    print("observed: %s" % json.dumps(records[0]["outcome"]))
+    mm, sk, _ = judge(records, name="SeqLangTrace_replay")
+    if sk:
+        print("not judged by the specification: %s" % sk)
+        return 0
+    if not mm:
+        print("agrees with the specification (Eval contains the observed outcome)")
+        return 0
+    print("specified: %s" % json.dumps(mm[0]["exp"]))
+    key = classify(mm, {p["id"]: p}).get(p["id"])
+    check = common.Check(prop, "replay")
+    if check.violation(obj, name="replay", key=key, what="still disagrees"):
+        return 1
+    return 0
